@@ -134,7 +134,8 @@ def token_violation(got, ref):
     if got.count('&') > ref.count('&'):
         kind = f'leaves stray continuation marker in {stmt_kind(ref)}'
     elif k < len(ref) and k < len(got) and ref[k].startswith(got[k]) and len(got[k]) < len(ref[k]):
-        kind = f'splits {tok_class(ref[k])}'
+        cls = tok_class(ref[k])
+        kind = f'splits {cls}' + (f' {ref[k]}' if cls in ('operator', 'dot-operator') else '')
     else:
         kind = f'alters tokens of {stmt_kind(ref)}'
     return kind, f'token #{k}: unwrapped text has {want!r}, joined wrapped text has {have!r}'
@@ -173,7 +174,8 @@ def l1_atoms(W):
             "'" + 'x' * (W - 5) + "'",                   # literal of length W-3
             '"' + 'y' * W + '"',                         # literal of length W+2
             "'q r'", "'q)r'", "'i''s'", '"d\'e"',        # blanks, parenthesis, doubled quote, other quote
-            'f(x)', 'u v', 'f(x)%y', '1.5e-3']           # parentheses, blank, ')%', number
+            'f(x)', 'u v', 'f(x)%y', '1.5e-3',           # parentheses, blank, ')%', number
+            '(/ u /)']                                   # array constructor delimiters
 
 
 def l1_shapes(W):
@@ -503,7 +505,7 @@ def gen_units(family, ns, pad, seed):
                      ', '.join(f'{names[k]}={_expr(3 + pad, n + k)}' for k in range(n)) + ')']
     elif family == 'fncall':
         for n in ns:
-            decls.append(f'real(kind=jprb), external :: fx{n}')
+            decls.append(f'real, external :: fx{n}')      # (a kinded EXTERNAL declaration is printed invalidly by fgen)
             body += [mark(n), f'{lhs} = fx{n}({", ".join(_terms(n, n))}) + a']
     elif family == 'decl':
         for n in ns:
@@ -566,7 +568,7 @@ def gen_units(family, ns, pad, seed):
                             'real, intent(inout) :: ' + ', '.join(names) + f'\nend subroutine du{sp[0] * pad}{n}')
     elif family == 'selcase':
         for n in ns:
-            vals = [str(3 * k + 100 * (k % 4 == 0)) if k % 5 else f'{3 * k}:{3 * k + 1}' for k in range(1, n + 1)]
+            vals = [str(4 * k + 1000 * (k % 4 == 0)) if k % 5 else f'{4 * k}:{4 * k + 1}' for k in range(1, n + 1)]
             body += [f'select case (i + {pad})', mark(n), f'case ({", ".join(vals)})', 'a = bb', 'end select']
     elif family == 'write':
         for n in ns:
@@ -594,7 +596,7 @@ def gen_units(family, ns, pad, seed):
     elif family == 'arrayctor':
         decls.append(f'real(kind=jprb) :: ac{sp[0] * pad}({max(ns)})')
         for n in ns:
-            body += [mark(n), f'ac{sp[0] * pad}(1:{n}) = (/ {", ".join(_terms(n, n))} /)']
+            body += [mark(n), f'ac{sp[0] * pad}(1:{n}) = (/ {", ".join(_terms(n, n))} /)'.replace('fn(a, bb)', 'min(a, bb)')]
     elif family == 'strcat':
         q = ["'it''s'", "'plain text'", "'(a) b)c'", "'x''''y'", "'say \"hi\"'", "'a ! b & c'"]
         for n in ns:
@@ -704,7 +706,7 @@ def make_source(family, ns, pad, seed):
              'subroutine kern(n, a, bb, ccc, arr, arr2, tt, r, s, lg)',
              'integer, intent(in) :: n', 'real(kind=jprb), intent(inout) :: a, bb, ccc, arr(n), arr2(n, n), r',
              'type(tt_t), intent(inout) :: tt', 'character(len=*), intent(inout) :: s', 'logical, intent(in) :: lg',
-             'integer :: i, j', 'real(kind=jprb), external :: fn', *u['decls'], *decl_tail,
+             'integer :: i, j', 'real, external :: fn', *u['decls'], *decl_tail,
              'i = 1', 'j = 1', *body, 'end subroutine kern', *u['routines'], 'end module c04_mod', '']
     return '\n'.join(lines)
 
@@ -826,7 +828,8 @@ def l2_single(family, ns, pad, style, seed, gfortran=False, scratch=None):
     out = [x for lst in res.values() for x in lst]
     if gfortran and not out and not overlong:
         msg = gf_check(wrapped, scratch)
-        if msg:
+        if msg and gf_check(ref, scratch, limit=False) is None:
+            # only a wrapping defect if the unwrapped print of the same IR is accepted
             out.append((f'wrapped output rejected by gfortran: {gf_signature(msg)}', msg))
     return out
 
@@ -835,7 +838,7 @@ def l2_work(item):
     """One (family, pad, chunk of n) batch under both styles.  Returns a dict of counts + violations."""
     family, pad, ns, seed, thorough, scratch = item
     _silence()
-    out = dict(family=family, pad=pad, ns=list(ns), cases=0, wrapped=0, overlong_cases=0, compiled=0, viol=[],
+    out = dict(family=family, pad=pad, ns=list(ns), cases=0, wrapped=0, overlong_cases=0, compiled=0, ref_rejected=0, viol=[],
                error=None, sample=None)
     src = make_source(family, ns, pad, seed)
     try:
@@ -876,6 +879,12 @@ def l2_work(item):
                     text = render(make_source(family, keep, pad, seed), style)[0]
                 msg = gf_check(text, scratch)
                 out['compiled'] += len(keep)
+                if msg and gf_check(ref if len(keep) == len(ns) else
+                                    render(make_source(family, keep, pad, seed), style)[1], scratch, limit=False):
+                    # the unwrapped print of the same IR is rejected as well: not a wrapping matter (C01/C02)
+                    out['ref_rejected'] += 1
+                    out['compiled'] -= len(keep)
+                    msg = None
                 if msg:
                     hit = False
                     for n in keep:
@@ -938,6 +947,10 @@ def run(ctx):
     ctx.require(w1 >= 1000, f'level 1 vacuous: only {w1} wrapped worlds')
     dead = [f for f, w in fam_wrapped.items() if not w]
     ctx.require(not dead, f'level 2 vacuous: no wrapped statement in families {dead}')
+    if not ctx.quick:
+        ncomp, nrej = sum(r['compiled'] for r in r2), sum(r['ref_rejected'] for r in r2)
+        ctx.require(ncomp >= n2 // 2 and nrej * 10 <= len(items),
+                    f'gfortran stage vacuous: {ncomp} of {n2} cases compiled, {nrej} batches with a rejected reference print')
     # ---- record violations deterministically: smallest case of every signature first
     groups = {}
     for sig, spec, det in viol1:
@@ -975,6 +988,7 @@ def run(ctx):
         level2=dict(cases=n2, wrapped=w2, violating=len(viol2), batches=len(items),
                     cases_with_exempt_overlong_line=sum(r['overlong_cases'] for r in r2),
                     cases_compiled_with_gfortran_132=sum(r['compiled'] for r in r2),
+                    batches_whose_unwrapped_print_gfortran_rejects=sum(r['ref_rejected'] for r in r2),
                     wrapped_per_family=fam_wrapped, styles=sorted(styles())),
         samples=[dict(level=1, **slices_sample(slices[0]))] + [r['sample'] for r in r2 if r['sample']][:3],
         bound=dict(level2_families={f: dict(n=[ns[0], ns[-1]], pad=[pads[0], pads[-1]]) for f, (ns, pads) in fams.items()}),
